@@ -487,7 +487,7 @@ class BufferedFile(ClosingContextManager):
 
         if ("r" in mode) or ("+" in mode):
             self._flags |= self.FLAG_READ
-        if ("w" in mode) or ("+" in mode):
+        if ("w" in mode) or ("x" in mode) or ("+" in mode):
             self._flags |= self.FLAG_WRITE
         if "a" in mode:
             self._flags |= self.FLAG_WRITE | self.FLAG_APPEND
